@@ -66,6 +66,20 @@ var c20Reqs = []c20Req{
 	{"literal-off-then-on", `{ a { ...G @skip(if:true) id ...G } nodes(n:2) { ...N @include(if:false) ... on Node { ...N } } ... @skip(if:true) { ...Q } ...Q } fragment G on A { name aOnly } fragment N on Node { id kind } fragment Q on Query { x1 b { id } }`, nil, nil, "", nil},
 	{"default-resolved-abstract", `query($x:Int,$s:String){ plainMap { name node { id ... on B { bOnly } } objA { id aOnly } nodes { id ... on C { cOnly } } un { ... on A { aOnly } } } plainFR { name echoArg(x:$x) } plainFRPtr { n } echo(s:$s) ...F } fragment F on Query { x1 }`,
 		[]map[string]interface{}{v("x", 4, "s", "q"), v("x", 5, "s", "r")}, nil, "", nil},
+	// literal arguments of default-resolved fields whose source resolves its own
+	// fields (graphql.FieldResolver) and scribbles over the argument map it is
+	// handed: the second execution of the plan must see the literals again
+	{"fieldresolver-literal-args", `{ plainFR { echoArg(x:5, y:2) e2: echoArg(x:1) name } p2: plainFR { echoArg(x:5, y:2) } plainFRPtr { echoArg(x:7, y:1) } }`, nil, nil,
+		`{"p2":{"echoArg":5002},"plainFR":{"e2":1000,"echoArg":5002,"name":"fr-name"},"plainFRPtr":{"echoArg":7}}`, nil},
+	// an abstract type without a type resolver whose members' IsTypeOf functions
+	// overlap (the first declared member that accepts wins, whatever was
+	// completed before): single values and lists mixing both members
+	{"istypeof-overlap", `query($as:String){ fcs(n:4) { ... on First { id title } ... on Catch { id kind } } fc(as:$as) { ... on First { title } ... on Catch { title kind } } f1: fc(as:"Catch") { ... on Catch { id } ... on First { id title } } f2: fc(as:"First") { ... on Catch { id } ... on First { id title } } more: fcs(n:3, as:"First") { ... on First { title } ... on Catch { kind } } }`,
+		[]map[string]interface{}{v("as", "Catch"), v("as", "First"), nil}, nil, "", nil},
+	// one named fragment (with nested object fields) spread in several places of
+	// the same parent type under different variable-driven conditions
+	{"fragment-places-conditions", `query($a:Boolean!,$b:Boolean!){ l: a { ...G @include(if:$a) id } r: a { ...G @include(if:$b) id } b { ... @skip(if:$a) { ...N } id } b2: b { ... @skip(if:$b) { ...N } id } nodes(n:2, as:"A") { ...G @skip(if:$a) } n2: nodes(n:2, as:"A") { ...G @skip(if:$b) } } fragment G on A { leafy { s i } items(n:1) { n owner { id } } } fragment N on Node { peer { id kind peer { id } } }`,
+		[]map[string]interface{}{v("a", false, "b", true), v("a", true, "b", false), v("a", true, "b", true), v("a", false, "b", false)}, nil, "", nil},
 	{"object-literal-with-variable", `query($t:String!, $m:Int){ echo(f:{min:1, tags:[$t]}, i:4) echo2(f:{min:$m, kind:BETA, tags:["k"]}, l:[1,$m]) }`,
 		[]map[string]interface{}{v("t", "z", "m", 6), v("t", "y", "m", 2)}, nil, "",
 		[]map[string]string{
